@@ -222,6 +222,19 @@ def eval_align_buffer(f, ubuf, size):
             raise KeyError(e_.get('name'))
         if k == 'call' and e_.get('cname') == '__builtin_expect':
             return ev(e_['args'][0])
+        if k == 'call' and e_.get('cname') == 'align' and len(e_.get('args', [])) == 4:
+            # std::align(alignment, size, ptr&, space&): contract of the standard library
+            al, sz = ev(e_['args'][0]), ev(e_['args'][1])
+            pr, sr = strip(e_['args'][2]), strip(e_['args'][3])
+            if pr is None or sr is None or pr.get('k') != 'ref' or sr.get('k') != 'ref':
+                raise KeyError('std::align operands')
+            ptr, space = env[pr['id']], env[sr['id']]
+            adj = (-ptr) % al
+            if space < adj + sz:
+                return 0
+            env[pr['id']] = ptr + adj
+            env[sr['id']] = space - adj
+            return ptr + adj
         if k == 'un':
             v = ev(e_['e'])
             return {'~': ~v & M, '!': int(not v), '-': (-v) & M}[e_['op']]
@@ -286,6 +299,21 @@ def clause_a(facts, rep, pol):
             n += 1
             rep.check(not bad, 'E5.align-buffer', f.qn, 'for every misalignment 0..15: result 8-aligned, advanced by < 8, size reduced by exactly the bytes skipped', f.loc,
                       'first counter-example (offset, size, result, new size): %s' % (bad[:1],), facts.config)
+            # the reduced size must reach the caller (the constructor computes the first chunk's capacity from it)
+            pt = (f.params[1].get('t') or '')
+            byref = '&' in pt and 'const' not in pt
+            rep.check(byref, 'E5.align-buffer', f.qn, 'the size parameter is a mutable reference (%s)' % pt, f.loc,
+                      'the bytes skipped for alignment must be deducted from the size the constructor uses for the chunk capacity; a by-value size overstates the capacity by up to 7 bytes', facts.config)
+            # and the constructor derives the capacity from that same variable after the call
+            for g in facts.functions:
+                if g.cls_qn == POOL and g.d.get('ctor') and pol in g.name:
+                    calls = [(bid, i, e) for bid, i, st, e in g.walk() if e.get('k') == 'call' and e.get('cid') == f.id]
+                    for bid, i, e in calls:
+                        a = strip(e['args'][1]) if len(e.get('args', [])) > 1 else None
+                        ok = a is not None and a.get('k') == 'ref' and a.get('dk') in ('param', 'local')
+                        used = ok and any(y.get('k') == 'bin' and y['op'] == '=' and strip(y['l']) is not None and strip(y['l']).get('k') == 'member' and strip(y['l']).get('name') == 'capacity'
+                                          and any(z.get('k') == 'ref' and z.get('id') == a['id'] for z in walk(y['r'])) for _, _, _, y in g.walk())
+                        rep.check(ok and used, 'E5.align-buffer', g.qn, 'chunk capacity is computed from the size variable handed to AlignBuffer', locline(e['loc']), '', facts.config)
     rep.require(n >= 1, 'C16.a: AlignBuffer not found')
     # header sizes aligned
     for s in facts.statics:
